@@ -4,13 +4,14 @@ CONSTANTS
   Reserved = {"meta.refinery.reason"}
   KeyFields = {"svc", "nested"}
   TsNames = {"svc", "nested"}
-  ClientNames = {"svc", "nested", "trace.trace_id", "bin.key", "meta.refinery.reason", "app.extra"}
+  TsPaths = {"msgp", "metaonly"}
+  ClientNames = {"svc", "nested", "trace.trace_id", "bin.key", "meta.refinery.reason"}
   Settable = {"meta.refinery.reason", "app.extra", "svc"}
-  SetVals = {"s1", "s2"}
-  MemoSets = {{"svc", "nested"}, {"bin.key", "app.extra"}, {"trace.trace_id"}, {"svc"}}
+  SetVals = {"s1"}
+  MemoSets = {{"svc", "nested"}, {"bin.key", "app.extra"}, {"trace.trace_id", "svc"}}
   Paths = {"map", "jsonbatch", "msgp", "metaonly", "umsg"}
-  Variants = {1, 2}
-  MaxOps = 4
+  Variants = {1}
+  MaxOps = 3
   Faithful = TRUE
 CHECK_DEADLOCK FALSE
 INVARIANTS TypeOK C20Exact C20Added MissingSound MemoSound NoAlter
